@@ -1671,6 +1671,8 @@ func (s *BgpServer) handleFSMMessage(peer *peer, e *fsmMsg) {
 				peer.fsm.lock.Unlock()
 
 				gracefulFamilies, dropFamilies = peer.forwardingPreservedFamilies()
+				// RFC 4724 4.2: a route still stale from an earlier restart is deleted
+				s.propagateUpdate(peer, peer.adjRibIn.DropStale(peer.configuredRFlist()))
 				s.propagateUpdate(peer, peer.StaleAll(gracefulFamilies))
 			} else {
 				dropFamilies = peer.configuredRFlist()
